@@ -166,9 +166,13 @@ def gen_all(ctx):
     # the BW keyword with NFFT in {None, N, > N} (the diagonal is compared with multi_taper_psd called with
     # identical keywords); adaptive=True with 1-2 usable tapers
     for _ in range(ctx.scale(5, 30)):
-        scs.append(S.force_bw_nfft(rng, S.gen_scenario(rng, "multi_taper_csd", nmax=16 if q else 32, max_ch=2 if q else 4), idx=_))
+        scs.append(S.runnable(lambda: S.force_bw_nfft(rng, S.gen_scenario(rng, "multi_taper_csd", nmax=16 if q else 32, max_ch=2 if q else 4), idx=_)))
     for _ in range(ctx.scale(2, 12)):
-        scs.append(S.force_few_tapers(rng, S.gen_scenario(rng, "multi_taper_csd", nmax=16 if q else 32, max_ch=2 if q else 4)))
+        scs.append(S.runnable(lambda: S.force_few_tapers(rng, S.gen_scenario(rng, "multi_taper_csd", nmax=16 if q else 32, max_ch=2 if q else 4))))
+    # adaptive weights on nearly coherent, differently coloured channels (PSD clause tight)
+    for _ in range(ctx.scale(4, 24)):
+        scs.append(S.runnable(lambda: S.force_coherent(rng, S.gen_scenario(rng, "multi_taper_csd", nmax=20 if q else 48, min_ch=2,
+                                                                         max_ch=3 if q else 4, lead=[rng.choice([2, 3])]))))
     # the NFFT-vs-N parity matrix (N even / odd x NFFT in {None, N, N+1, N+2, 2N, 2N+1})
     ne, no = (10, 9) if q else (rng.choice([16, 32]), rng.choice([15, 31]))
     for est in ("multi_taper_csd", "periodogram_csd"):
@@ -182,13 +186,13 @@ def gen_all(ctx):
         est, lay, lead = plan[i % len(plan)]
         if not q and i >= len(plan):
             lead = rng.choice([[2, 2], [2, 3], [3, 2], [2, 1, 3]])
-        scs.append(S.gen_scenario(rng, est, nmax=(10 if est == "multi_taper_csd" else 16) if q else 24, lead=lead, layout=lay))
+        scs.append(S.runnable(lambda: S.gen_scenario(rng, est, nmax=(12 if est == "multi_taper_csd" else 16) if q else 24, lead=lead, layout=lay)))
     # option-sibling sequences
     for _ in range(ctx.scale(2, 12)):
-        scs += S.gen_siblings(rng, "multi_taper_csd", nmax=14 if q else 32, max_ch=2 if q else 3, opt="low_bias")
+        scs += S.runnable(lambda: S.gen_siblings(rng, "multi_taper_csd", nmax=14 if q else 32, max_ch=2 if q else 3, opt="low_bias"))
     for _ in range(ctx.scale(3, 20)):
-        scs += S.gen_siblings(rng, rng.choice(["multi_taper_csd", "multi_taper_csd", "periodogram_csd"]),
-                              nmax=14 if q else 32, max_ch=2 if q else 3)
+        scs += S.runnable(lambda: S.gen_siblings(rng, rng.choice(["multi_taper_csd", "multi_taper_csd", "periodogram_csd"]),
+                              nmax=14 if q else 32, max_ch=2 if q else 3))
     for sc in scs:
         if sc["est"] != "welch" and len(sc["shape"]) == 2 and not sc.get("use_sk") and not sc.get("sibling") \
                 and not sc.get("layout") and rng.random() < 0.25:
